@@ -457,6 +457,25 @@ pub fn c02_cases(tier: Tier) -> Vec<Case> {
     rep("sanitize(trim), sanitize(trim, lowercase)", vec![San::Trim, San::Trim, San::Lower], vec![], Inner::Str, "String", "repeated:sanitize", &mut cases, &str_inputs, &mut n);
     rep("validate(not_empty), validate(len_char_max = 3)", vec![], vec![Vd::NotEmpty, Vd::LenCharMax(Bound::lit(Val::U(3)))], Inner::Str, "String", "repeated:validate", &mut cases, &str_inputs, &mut n);
     rep("validate(finite), validate(less = 10.0)", vec![], vec![Vd::Finite, Vd::Less(Bound::lit(Val::f64(10.0)))], Inner::F64, "f64", "repeated:validate", &mut cases, &neighbourhood(Inner::F64, &[Val::f64(10.0)]), &mut n);
+    // `with`/`error` mixed with built-in validators: both cannot be honoured by the current design, so the
+    // declaration must be refused whatever the written order
+    for (attr, ty) in [
+        ("validate(less_or_equal = 100, with = ulib::check_int, error = NumErr)", "i32"),
+        ("validate(with = ulib::check_int, error = NumErr, less_or_equal = 100)", "i32"),
+        ("validate(with = ulib::check_int, less_or_equal = 100, error = NumErr)", "i32"),
+        ("validate(greater = 1, less = 10, with = ulib::check_int, error = NumErr)", "i32"),
+        ("validate(finite, with = ulib::check_float, error = NumErr)", "f64"),
+        ("validate(error = NumErr, finite, with = ulib::check_float)", "f64"),
+        ("validate(not_empty, with = ulib::check_str, error = StrErr)", "String"),
+        ("validate(len_char_max = 3, error = StrErr, with = ulib::check_str)", "String"),
+        ("validate(predicate = ulib::vec_short, with = ulib::check_vec, error = VecErr)", "Vec<i64>"),
+    ] {
+        let name = format!("Mix{n}");
+        let mut c = raw_case("decl", "reject", "mixed:with-and-builtin", attr, &format!("pub struct {name}({ty});"), "");
+        c.text = format!("#[nutype({attr})] pub struct {name}({ty});");
+        cases.push(c);
+        n += 1;
+    }
     // repeated derive: both blocks' traits must exist (checked by a `use` module), or the declaration is refused
     {
         let name = format!("Rep{n}");
